@@ -6,7 +6,7 @@
     lists; [segs] is the stack of per-segment tables, each sorted by key ([sorted_tb]);
     [all_keys segs] are the ids of all segments. The statements hold for every
     segmentation. *)
-From Verif Require Import Base.Prelude Model.C20 Proofs.C20.
+From Verif Require Import Base.Prelude Base.DagI Model.C20 Proofs.C20.
 From Coq Require Import Lia Arith.
 Local Open Scope nat_scope.
 
@@ -82,6 +82,34 @@ Theorem C20_change_resolves_back : forall (segs : list (@table (list nat))),
   (forall l, l < shortest_len k segs -> resolve_change (firstn l k) segs = AmbiguousMatch).
 Proof. exact change_resolves_thm. Qed.
 
+(** The two-level index for change ids: a change of the disambiguation set is shown with
+    its set-local length and that prefix resolves — through the repo, by the full id — to
+    exactly that change with all its positions; shorter non-empty prefixes are ambiguous; a
+    change outside the set keeps its repo-wide length and resolves as in the repo
+    ([C20_change_resolves_back]). *)
+Theorem C20_two_level_change : forall (segs : list (@table (list nat))),
+  Forall sorted_tb segs -> forall w, Nat.even w = true -> 1 <= w ->
+  (forall x, In x (all_keys segs) -> length x = w) ->
+  forall Dc, (forall x, In x Dc -> In x (all_keys segs)) ->
+  forall k, In k (all_keys segs) ->
+  (In k Dc ->
+     shortest_change2 (Some Dc) k segs = set_shortest k Dc /\
+     resolve_change2 (Some Dc) (firstn (set_shortest k Dc) k) segs =
+       SingleMatch (k, positions_of segs k) /\
+     forall l, 1 <= l -> l < set_shortest k Dc ->
+       resolve_change2 (Some Dc) (firstn l k) segs = AmbiguousMatch) /\
+  (~ In k Dc -> 1 <= shortest_len k segs ->
+     shortest_change2 (Some Dc) k segs = shortest_len k segs /\
+     resolve_change2 (Some Dc) (firstn (shortest_len k segs) k) segs =
+       resolve_change (firstn (shortest_len k segs) k) segs).
+Proof. exact two_level_change_thm. Qed.
+
+(** Visibility of a change's targets: the state the checker expects for a position is
+    Visible exactly when that commit is an ancestor of one of the view's heads. *)
+Theorem C20_visible : forall (c : case), wf (c_graph c) -> forall p,
+  visible_at c p = true <-> exists h, In h (c_heads c) /\ anc (c_graph c) p h.
+Proof. exact visible_thm. Qed.
+
 (** Refs shadow: the length shown after disambiguate_prefix_with_refs is at least the
     minimum, its prefix is not a bookmark or tag name (unless the whole id is shown), and
     every shorter length from the minimum on is such a name. *)
@@ -122,3 +150,5 @@ Print Assumptions C20_minimal.
 Print Assumptions C20_resolves_back.
 Print Assumptions C20_two_level.
 Print Assumptions C20_change_resolves_back.
+Print Assumptions C20_two_level_change.
+Print Assumptions C20_visible.
